@@ -254,8 +254,8 @@ CLAIMED = {
         'out_structure_honest_dtypes, declared_is_evaluated, composite_structs, transpose_structs, exec_leaf_honest/defined: '
         '20 obligations closed under the global context (incl. the shape model of the diagonal constructors: diagonal_ctor_honest). Tie: C-tie on every class x layouts x data dtype {f32,f64,i32,mixed} '
         'x parameter dtype x x64 on/off: out_structure() vs eval_shape vs actual mv(x) vs model (1336 quick / 5460 thorough).',
-        'Partial: structures of REDUCED and INVERTED operators (reduce_structs, inverse_structs) are checked by '
-        'correspondence only. Default-out_structure leaves carry the real declaration in the term; JAX eval_shape / '
+        'The structures of REDUCED and INVERTED operators are proved in Props/C01Structs.v (reduce_structs) and '
+        'Props/C06Structs.v (inverse_structs), compiled by the C01 / C06 checks, and compared here on the real objects. Default-out_structure leaves carry the real declaration in the term; JAX eval_shape / '
         'result_type / linear_transpose trusted; cases outside the guards (wider parameters, dtype unavailable in the mode) '
         'are counted separately, not alarmed on.',
         'DESIGN.md section 4, C05',
@@ -269,13 +269,13 @@ CLAIMED = {
         'inverse tied to a certified Gauss-Jordan inverse; CG convergence tested numerically only',
         'homothety_inv, diag_inv, diag_pinv_moore_penrose, diag_pinv_projection, orthogonal_inv_rotation/moveaxis, '
         'inverse_two_sided, blockdiag_inv, blockdiag_inverse_blockwise, inverse_of_lazy_inverse, inv_inv, '
-        'inverse_refuses_nonsquare, inverse_cases, lazy_inverse_matrix: 31 obligations closed under the global context. '
+        'inverse_refuses_nonsquare, inverse_cases, lazy_inverse_matrix, inverse_structs, inv_inv_full (premise-free), '
+        'inv_inv_total: 45 obligations closed under the global context. '
         'Tie: C-tie on the whole alphabet + closed-form parameter scopes (all zero masks n<=4, move-axis tuples, rotation '
         'residues, nested block containers): skeleton/identities of op.I and op.I.I, structures, dense matrices, refusal kind; '
         'T-tie Props/Tables.v (method resolution of inverse).',
         'Partial: "A.I(y) solves A z = y to the solver tolerance" is a floating-point convergence statement about lineax CG: '
-        'tested on 132 (quick) SPD systems with three solver settings, not proved. inv_inv carries the decidable premise '
-        'square_blocks (needs reduce_structs to remove). Algebra.inverse of the shared core is not recursive on nested '
+        'tested on 132 (quick) SPD systems with three solver settings, not proved. Algebra.inverse of the shared core is not recursive on nested '
         'block-diagonals; C06 uses inverse_r with an agreement lemma.',
         'DESIGN.md section 4, C06',
     ),
@@ -288,12 +288,13 @@ CLAIMED = {
         'differential correspondence of the three real dense forms with both model forms',
         'denote_homogeneous, denote_additive, denote_linear, sum_represents, block_represents, '
         'identity_scalar_override_is_generic, represents_implies_generic, matrix_determined_by_products closed and '
-        'premise-free; apply_is_matvec_partial, override_represents_partial, override_eq_generic_partial carry named '
-        'premises. 14 obligations closed under the global context. Tie: C-tie on 470 (quick) / 6475 (thorough) operators: '
+        'premise-free; generic_loop_is_columns (the transcribed fori_loop builds exactly the column matrix) proved for every '
+        'term; apply_is_matvec for every honest operator; override_represents / override_eq_generic under named leaf '
+        'premises. 19 obligations closed under the global context. Tie: C-tie on 470 (quick) / 6475 (thorough) operators: '
         'op.as_matrix(), AbstractLinearOperator.as_matrix(op), the mv(e_j) matrix, linearity probes, vs x_as_matrix / '
         'x_generic / Exec.mat.',
-        'Partial: override_eq_generic carries the premises LOOP (transcribed loop = its column form: a model-to-model '
-        'equality checked on every case, not proved) and HON (C05 honesty, derivable via honesty_premise_from_C05); array-level '
+        'Partial: override_eq_generic carries the premises HON (C05 honesty, derivable via honesty_premise_from_C05) and the '
+        'leaf-level premises HOV / HRESH / HINV / HSOLVE; array-level '
         'leaf overrides rest on C09/C11 (their own models); lin_facts not discharged for Exec.leafsem. Trusts measured leaf '
         'matrices, textbook hstack/vstack/block_diag/inv, float32 snapped to rationals; dtypes not modelled here (C05).',
         'DESIGN.md section 4, C04',
